@@ -65,6 +65,11 @@ def run(tier, replay=None):
     rnd = random.Random(rep.seed)
     if tier == "quick" and len(pool) > 900:
         pool = rnd.sample(pool, 900)
+    # ... and the programs of the other feature areas (closures, identifiers, objects, lists / maps, evaluation order), and the
+    # whole fault catalogue of C03 - twins and ill-typed programs alike: soundness is about whatever the compiler accepts
+    feat = list(progpool.features(binary, work / "features", tier, rep.seed))
+    flt = list(progpool.faults(work / "faults"))
+    pool += feat + flt
 
     def run_group(srcs):
         out = []
@@ -107,7 +112,7 @@ def run(tier, replay=None):
     rep.coverage = dict(
         evaluations=len(cases), distinct_nontrivial=len(judged), outcome=st, exhaustive=True, composed_programs=len(composed),
         composed_accepted=sum(1 for c in composed if c["obs"]["status"] in ("ok", "fail")),
-        rule="GenSound.tla: 19 binary operators x 6x6 static kind pairs, 2 unary operators x 6 kinds, about 120 built-in / index / field / method / closure / optional expressions in a typed position; plus composed programs (GenCtl control-flow pool and the example corpus) judged for dynamic type errors only; non-trivial = accepted by the compiler (only those are judged)",
+        rule="GenSound.tla: 19 binary operators x 6x6 static kind pairs, 2 unary operators x 6 kinds, about 120 built-in / index / field / method / closure / optional expressions in a typed position; plus composed programs (GenCtl control-flow pool, the example corpus, the feature pools of GenCapture / GenNames / GenObj / GenHeap / GenOrder and the whole fault catalogue GenFault - ill-typed programs and twins: whatever is accepted) judged for dynamic type errors only; non-trivial = accepted by the compiler (only those are judged)",
         states=r.distinct + g.distinct, transitions=r.generated + g.generated,
         samples=[dict(id=c["id"], typeof=c["obs"]["typeof"], kind=c["obs"]["kind"], value=c["obs"]["text"]) for c in judged[:: max(1, len(judged) // 4)][:4]],
     )
